@@ -5,7 +5,7 @@ from p11const import A_bool, A_ulong, A_bytes, A_str, A_mechs
 
 POOL = json.load(open(os.path.join(os.path.dirname(os.path.abspath(__file__)), "keypool.json")))
 
-KINDS = ["data", "cert", "aes", "generic", "des3", "rsa_pub", "rsa_priv", "ec_pub", "ec_priv"]
+KINDS = ["data", "cert", "aes", "generic", "des3", "rsa_pub", "rsa_priv", "ec_pub", "ec_priv", "dsa_priv", "dh_priv", "dsa_params", "dh_params"]
 SECRET_ATTRS = [K.CKA_VALUE, K.CKA_PRIVATE_EXPONENT, K.CKA_PRIME_1, K.CKA_PRIME_2, K.CKA_EXPONENT_1, K.CKA_EXPONENT_2, K.CKA_COEFFICIENT]
 
 def label(ref, suffix=""):
@@ -91,6 +91,16 @@ def make(kind, ref, r, token=False, private=False, extra=None, flags=None, vlen=
               boolflag(K.CKA_SENSITIVE, "sensitive", False), boolflag(K.CKA_EXTRACTABLE, "extractable", True),
               boolflag(K.CKA_SIGN, "sign", True), boolflag(K.CKA_DERIVE, "derive", True), boolflag(K.CKA_DECRYPT, "decrypt", False), boolflag(K.CKA_UNWRAP, "unwrap", False)]
         info["klass"] = K.CKO_PRIVATE_KEY; info["ktype"] = K.CKK_EC; info["secret"][K.CKA_VALUE] = bytes.fromhex(k["d"])
+    elif kind in ("dsa_priv", "dh_priv"):
+        # imported DSA / DH private keys: the numbers only need to be stored, read back and access-controlled here
+        t = base(ref, K.CKO_PRIVATE_KEY, token, private, r, suffix)
+        prime = bytearray(rnd(r, 128)); prime[0] |= 0x80; prime[-1] |= 1
+        val = rnd(r, 20 if kind == "dsa_priv" else 32)
+        t += [A_ulong(K.CKA_KEY_TYPE, K.CKK_DSA if kind == "dsa_priv" else K.CKK_DH), A_bytes(K.CKA_PRIME, bytes(prime)), A_bytes(K.CKA_BASE, rnd(r, 128)), A_bytes(K.CKA_VALUE, val),
+              A_bytes(K.CKA_ID, idv if idv is not None else rnd(r, 4)), boolflag(K.CKA_SENSITIVE, "sensitive", False), boolflag(K.CKA_EXTRACTABLE, "extractable", True),
+              boolflag(K.CKA_DERIVE, "derive", kind == "dh_priv"), boolflag(K.CKA_SIGN, "sign", kind == "dsa_priv"), boolflag(K.CKA_DECRYPT, "decrypt", False), boolflag(K.CKA_UNWRAP, "unwrap", False)]
+        if kind == "dsa_priv": t.append(A_bytes(K.CKA_SUBPRIME, rnd(r, 20)))
+        info["klass"] = K.CKO_PRIVATE_KEY; info["ktype"] = K.CKK_DSA if kind == "dsa_priv" else K.CKK_DH; info["secret"][K.CKA_VALUE] = val
     elif kind in ("dsa_params", "dh_params"):
         # domain parameters objects (no key material): any odd "prime" will do for storage and access-control purposes
         t = base(ref, K.CKO_DOMAIN_PARAMETERS, token, private, r, suffix)
